@@ -66,6 +66,14 @@ def build(tier, rnd):
     add(['rsa-sha2-256', 'ssh-ed25519', 'ssh-rsa', 'ssh-rsa-cert-v01@openssh.com'],
         {'rsa-sha2-256': (3072, '', 0), 'ssh-rsa': (3072, '', 0), 'ssh-rsa-cert-v01@openssh.com': (3072, 'ssh-rsa', 2048)}, 'combined')
     add(['ecdsa-sha2-nistp256', 'ssh-rsa'], {'ssh-rsa': (1024, '', 0)}, 'combined')
+    # SSH_MSG_DEBUG messages (legal at any time, RFC 4253 11.3) in front of the reply that carries the key: the key is presented
+    # all the same and must be measured all the same
+    for k in (1, 2, 3):
+        add(['rsa-sha2-512', 'ssh-ed25519-cert-v01@openssh.com', 'ssh-ed25519'],
+            {'rsa-sha2-512': (2048, '', 0), 'ssh-ed25519-cert-v01@openssh.com': (256, 'ssh-rsa', 2048)}, 'debug-before-reply')
+        cases[-1]['server_opts'] = {'debug_kinds': {'kexreply': k}}
+        add(['ssh-rsa-cert-v01@openssh.com', 'ssh-rsa'], {'ssh-rsa-cert-v01@openssh.com': (3072, 'ssh-ed25519', 256), 'ssh-rsa': (1024, '', 0)}, 'debug-before-reply')
+        cases[-1]['server_opts'] = {'debug_kinds': {'kexreply': k}}
     # advertised but never presented: the server closes the probe connection instead of sending the key.  Nothing was measured
     # for that type, so nothing may be reported for it (no size, no CA, no fingerprint); the other types are unaffected.
     for key, hk, held in ((['rsa-sha2-512', 'rsa-sha2-256', 'ssh-ed25519'], {}, RSA_FAM),
